@@ -29,6 +29,14 @@ Theorem C17_iterations_le_budget : forall hf s tr c,
 Proof. exact iterations_le_budget. Qed.
 Print Assumptions C17_iterations_le_budget.
 
+(* ... and neither does the number of passes through the loop body (IterStart = evolve() /
+   generate_sequence() entered): a pass that is not reported by after_search_iteration is no run of
+   the loop, so rejected offspring etc. cannot buy iterations beyond the budget. *)
+Theorem C17_loop_passes_le_budget : forall hf s tr c,
+  accepts hf s tr = true -> c_iter s = Some c -> 0 < lim c -> n_start tr <= lim c.
+Proof. exact starts_le_budget. Qed.
+Print Assumptions C17_loop_passes_le_budget.
+
 (* No iteration starts (no test execution, no after_search_iteration follows an iteration boundary)
    unless every configured budget — iterations, test executions, executed statements — is still
    strictly below its limit at that boundary. *)
